@@ -55,6 +55,7 @@ impl TermCase {
         json!({
             "text": self.text,
             "table": describe_table(&self.table),
+            "table_spec": table_spec(&self.table),
             "tree": tree_to_string(&self.tree, &self.table, &self.pool),
             "vars": self.names,
             "expected": format!("{:?}", self.refv),
@@ -67,4 +68,161 @@ impl TermCase {
 
 pub fn ex_msg<T>(r: exmex::ExResult<T>) -> Result<T, String> {
     r.map_err(|e| e.msg().to_string())
+}
+
+#[derive(Clone, Copy, Debug, PartialEq, Eq)]
+pub enum Route {
+    Flat,
+    FlatWo,
+    FlatWoCompiled,
+    FlatWoCompiledTwice,
+    Deep,
+    FlatToDeep,
+    WoToDeep,
+    DeepToFlat,
+    FlatDeepFlat,
+    DeepFlatDeep,
+}
+impl Route {
+    pub fn name(&self) -> &'static str {
+        match self {
+            Route::Flat => "flat",
+            Route::FlatWo => "flat_wo_compile",
+            Route::FlatWoCompiled => "flat_wo_compile+compile",
+            Route::FlatWoCompiledTwice => "flat_wo_compile+compile+compile",
+            Route::Deep => "deep",
+            Route::FlatToDeep => "flat->deep",
+            Route::WoToDeep => "flat_wo_compile->deep",
+            Route::DeepToFlat => "deep->flat",
+            Route::FlatDeepFlat => "flat->deep->flat",
+            Route::DeepFlatDeep => "deep->flat->deep",
+        }
+    }
+}
+
+pub struct Denotation {
+    pub names: Vec<String>,
+    pub value: Term,
+}
+
+/// Parses `text` along a route and evaluates it with `vals(names)`.
+pub fn denote(route: Route, text: &str, vals: &dyn Fn(&[String]) -> Vec<Term>) -> Result<Denotation, String> {
+    fn fin<'a, E: Express<'a, Term>>(e: &E, vals: &dyn Fn(&[String]) -> Vec<Term>) -> Result<Denotation, String> {
+        let names = e.var_names().to_vec();
+        let v = ex_msg(e.eval(&vals(&names)))?;
+        Ok(Denotation { names, value: v })
+    }
+    match route {
+        Route::Flat => fin(&ex_msg(F::parse(text))?, vals),
+        Route::FlatWo => fin(&ex_msg(F::parse_wo_compile(text))?, vals),
+        Route::FlatWoCompiled => {
+            let mut e = ex_msg(F::parse_wo_compile(text))?;
+            e.compile();
+            fin(&e, vals)
+        }
+        Route::FlatWoCompiledTwice => {
+            let mut e = ex_msg(F::parse_wo_compile(text))?;
+            e.compile();
+            e.compile();
+            fin(&e, vals)
+        }
+        Route::Deep => fin(&ex_msg(D::parse(text))?, vals),
+        Route::FlatToDeep => fin(&ex_msg(ex_msg(F::parse(text))?.to_deepex())?, vals),
+        Route::WoToDeep => fin(&ex_msg(ex_msg(F::parse_wo_compile(text))?.to_deepex())?, vals),
+        Route::DeepToFlat => fin(&ex_msg(F::from_deepex(ex_msg(D::parse(text))?))?, vals),
+        Route::FlatDeepFlat => fin(&ex_msg(F::from_deepex(ex_msg(ex_msg(F::parse(text))?.to_deepex())?))?, vals),
+        Route::DeepFlatDeep => {
+            fin(&ex_msg(ex_msg(F::from_deepex(ex_msg(D::parse(text))?))?.to_deepex())?, vals)
+        }
+    }
+}
+
+impl TermCase {
+    /// values for a list of names according to the case's pool (atoms by pool index)
+    pub fn vals_for(&self, names: &[String]) -> Vec<Term> {
+        names
+            .iter()
+            .map(|n| match self.pool.names.iter().position(|p| p == n) {
+                Some(i) => Term::Atom(i as u32),
+                None => Term::Poison,
+            })
+            .collect()
+    }
+    /// Checks one route against the reference of the tree.
+    pub fn check_route(&self, prop: &str, route: Route) -> crate::runner::CaseResult {
+        use crate::runner::{fail, guard};
+        let mk = |k: &str, msg: String| {
+            let mut c = self.describe();
+            c["route"] = json!(route.name());
+            fail(&format!("{prop}/{}/{k}", route.name()), msg, c)
+        };
+        let vf = |n: &[String]| self.vals_for(n);
+        match guard(|| denote(route, &self.text, &vf)) {
+            Err(p) => Err(mk("panic", format!("panic on well-formed text `{}` via {}: {p}", self.text, route.name()))),
+            Ok(Err(e)) => Err(mk("rejected", format!("well-formed text `{}` fails via {}: {e}", self.text, route.name()))),
+            Ok(Ok(d)) => {
+                if d.names != self.names {
+                    return Err(mk(
+                        "var-names",
+                        format!("`{}` via {}: var_names {:?}, expected {:?}", self.text, route.name(), d.names, self.names),
+                    ));
+                }
+                let vn = self.norm(&d.value);
+                if vn != self.refv {
+                    return Err(mk(
+                        "wrong-value",
+                        format!("`{}` via {} denotes {:?}, reference semantics give {:?}", self.text, route.name(), vn, self.refv),
+                    ));
+                }
+                Ok(())
+            }
+        }
+    }
+}
+
+pub fn table_spec(table: &[OpSpec]) -> Value {
+    Value::Array(
+        table
+            .iter()
+            .map(|o| json!([o.name, o.bin.map(|b| b.0), o.bin.map(|b| b.1).unwrap_or(false), o.unary, o.constant]))
+            .collect(),
+    )
+}
+pub fn table_from_spec(v: &Value) -> Vec<OpSpec> {
+    v.as_array()
+        .map(|a| {
+            a.iter()
+                .map(|o| OpSpec {
+                    name: crate::term::intern(o[0].as_str().unwrap_or("?")),
+                    bin: o[1].as_i64().map(|p| (p, o[2].as_bool().unwrap_or(false))),
+                    unary: o[3].as_bool().unwrap_or(false),
+                    constant: o[4].as_bool().unwrap_or(false),
+                })
+                .collect()
+        })
+        .unwrap_or_default()
+}
+
+/// Debug helper: evaluates a text along all routes with the given table and prints the results.
+pub fn probe(table: &[OpSpec], text: &str) {
+    set_table(table);
+    let vf = |names: &[String]| -> Vec<Term> { (0..names.len()).map(|i| Term::Atom(i as u32)).collect() };
+    for r in [
+        Route::Flat,
+        Route::FlatWo,
+        Route::FlatWoCompiled,
+        Route::Deep,
+        Route::FlatToDeep,
+        Route::WoToDeep,
+        Route::DeepToFlat,
+    ] {
+        match crate::runner::guard(|| denote(r, text, &vf)) {
+            Ok(Ok(d)) => println!("{:28} {:?}  {:?}", r.name(), d.names, norm(&d.value, table)),
+            Ok(Err(e)) => println!("{:28} ERR {e}", r.name()),
+            Err(p) => println!("{:28} PANIC {p}", r.name()),
+        }
+    }
+    if let Ok(d) = D::parse(text) {
+        println!("deep unparse: {}", d.unparse());
+    }
 }
